@@ -196,7 +196,14 @@ impl<'a> Hist<'a> {
                             let key = pair_key((p.src, p.dst));
                             let present: Vec<String> = p.cached.iter().map(|(path, _, _)| format!("{:#}", path.fingerprint())).collect();
                             let mut ms = member_since.lock().unwrap();
-                            ms.retain(|(k, f), _| *k != key || present.contains(f));
+                            // a new worker for the pair starts with an empty cache: what its predecessor held is void
+                            let me = simrt::current_actor().map(|a| a as u64).unwrap_or(u64::MAX);
+                            let marker = (key, String::from("#worker"));
+                            if ms.get(&marker).map(|v| v.0 != me).unwrap_or(true) {
+                                ms.retain(|(k, _), _| *k != key);
+                                ms.insert(marker.clone(), (me, 0));
+                            }
+                            ms.retain(|(k, f), _| *k != key || f == "#worker" || present.contains(f));
                             let now_ns = sim2.now_ns();
                             for f in present {
                                 ms.entry((key, f)).or_insert((now_ns, step));
